@@ -188,16 +188,20 @@ def check_state(h):
 def _classify(got, want):
     from mc import rp66 as R
     try:
-        a = [R.parse_eflr(r.body) for r in R.parse_physical(got).records if r.is_eflr]
-        b = [R.parse_eflr(r.body) for r in R.parse_physical(want).records if r.is_eflr]
+        ra, rb = R.parse_physical(got).records, R.parse_physical(want).records
+        a = [R.parse_eflr(r.body) for r in ra if r.is_eflr]
+        b = [R.parse_eflr(r.body) for r in rb if r.is_eflr]
     except R.FormatError as e:
         return 'unparsable'
+    # 'set-order' is only the same records in another order: every set byte-identical, the data records unchanged
+    same_records = (sorted(r.body for r in ra if r.is_eflr) == sorted(r.body for r in rb if r.is_eflr)
+                    and [r.body for r in ra if not r.is_eflr] == [r.body for r in rb if not r.is_eflr])
     na = sum(len(s.objects) for s in a)
     nb = sum(len(s.objects) for s in b)
     if na != nb:
         return 'phantom-object'
-    if sorted((s.type, s.name) for s in a) == sorted((s.type, s.name) for s in b) and \
-            [(s.type, s.name) for s in a] != [(s.type, s.name) for s in b]:
+    if sorted((s.type, s.name or '') for s in a) == sorted((s.type, s.name or '') for s in b) and \
+            [(s.type, s.name) for s in a] != [(s.type, s.name) for s in b] and same_records:
         return 'set-order'
     return 'content'
 
@@ -259,7 +263,9 @@ def shards(tier):
 def cases(shard, tier):
     if shard.get('kinds'):
         for k in KIND_REJECT:
-            for where in ('before-first', 'after-one', 'twice'):
+            for where in ('before-first', 'after-one', 'twice', 'first-of-all'):
+                if where == 'first-of-all' and '$ref' in str(KIND_REJECT[k][0]):
+                    continue        # the rejected call is the very first call on the logical file: nothing to refer to
                 for named in (False, True):
                     yield {'kindrej': k, 'where': where, 'named': named}
         return
@@ -387,6 +393,12 @@ def kind_specs(c):
     else:
         full, clean = [rej, dict(rej, h='RJ2'), ok1], [ok1]
     mk = lambda ops: {'sul': {'max_record_length': 8192}, 'ops': base + ops, 'write': {}}
+    if c['where'] == 'first-of-all':
+        # rejected before anything else exists (also before the first origin); objects of the kind are added at the end
+        # (right after the origin if they need nothing else, so that everything else is created after them)
+        tail = base[2:] + [ok1] if '$ref' in str(good) else [ok1] + base[2:]
+        return ({'sul': {'max_record_length': 8192}, 'ops': base[:1] + [rej] + base[1:2] + tail, 'write': {}},
+                {'sul': {'max_record_length': 8192}, 'ops': base[:2] + tail, 'write': {}})
     return mk(full), mk(clean)
 
 
